@@ -11,7 +11,8 @@ def validate(res, module, name, traces, constants, overrides=None, invariants=()
     """Returns list of (trace index, events matched) for rejected traces.  Raises MachineryError on TLC failure."""
     from .common import MachineryError
     from concurrent.futures import ThreadPoolExecutor
-    if not traces:
+    from . import replay as _rp
+    if not traces or _rp.REPLAY is not None:
         return []
     shards = max(1, min(shards, len(traces)))
     parts = [traces[i::shards] for i in range(shards)]
